@@ -100,6 +100,20 @@ def build(tier: str) -> List[Cond]:
         conds.append(Cond(oid=f"deferred/static/tail={tail or '-'}", clause="unresolvable modification parses; mass/comp raise a ValueError-family error",
                           module="vf.h.c09", func="o_deferred", shape=dict(slot="static", tail=tail), sym=[("dummy", "bool")], pre=[], timeout=t,
                           functions=FUNCS, bounds="concrete value (regex is a realisation point)"))
+    for form in ("", "|", "xq|", "|xq", "xq||zz", "xq#g1", "Obs:xq", "U:xq"):
+        conds.append(Cond(oid=f"deferred/static/value={form or '-'}", clause="unresolvable modification parses; mass/comp raise a ValueError-family error",
+                          module="vf.h.c09", func="o_deferred", shape=dict(slot="static", tail="", form=form), sym=[("dummy", "bool")], pre=[], timeout=t,
+                          functions=FUNCS, bounds="concrete value (regex is a realisation point)"))
+    # the corpus of unresolvable / malformed values around a symbolic tail: the empty value, empty and unknown '|' alternatives,
+    # tagged and prefixed unknown names
+    FORMS = ["%s", "%s|", "|%s", "xq%s|", "xq|%s", "xq%s#g1", "Obs:xq%s", "U:xq%s", "%s|INFO:a"]
+    for si, slot in enumerate(("res", "nterm", "cterm", "labile", "unknown", "interval")):
+        forms = FORMS if (tier == "thorough" or slot == "res") else [FORMS[(si * 3 + j) % len(FORMS)] for j in range(3)]
+        for form in forms:
+            conds.append(Cond(oid=f"deferred/{slot}/form={form}", clause="unresolvable modification parses; mass/comp raise a ValueError-family error",
+                              module="vf.h.c09", func="o_deferred", shape=dict(slot=slot, form=form), sym=[("tail", "str")],
+                              pre=["len(tail) <= %d" % (1 if tier == "quick" else 2), "all(c in 'qxz' for c in tail)"], timeout=t,
+                              functions=FUNCS, bounds=f"value {form!r} with %s := tail over {{q,x,z}} (incl. the empty tail), absent from every vocabulary"))
     for slot in ("res", "nterm", "cterm", "labile", "unknown", "interval"):
         conds.append(Cond(oid=f"deferred/{slot}", clause="unresolvable modification parses; mass/comp raise a ValueError-family error",
                           module="vf.h.c09", func="o_deferred", shape=dict(slot=slot), sym=[("tail", "str")],
@@ -121,7 +135,7 @@ def run(tier: str, seed: int, only=None) -> Report:
                     "every modification position parses and mass()/comp() raise a ValueError subclass.",
         functions=FUNCS,
         bounds="(i) len<=2 / <=3 all Unicode; (iii) templates " + ", ".join(repr(x) for x in (TEMPLATES_Q if tier == "quick" else TEMPLATES_T)) +
-               " x every position x 4 edit kinds; (iv) 7 modification positions x values 'xq'+{q,x,z}^<=1/2",
+               " x every position x 4 edit kinds; (iv) 7 modification positions x values 'xq'+{q,x,z}^<=1/2 and the corpus forms (empty value, empty/unknown '|' alternatives, '#' tags, Obs:/U: prefixes) around the same symbolic tail",
         outside="5-token exhaustiveness, random 40-token strings (enumeration/sampling, not solver work); hangs are bounded by CrossHair's "
                 "per-path timeout: a path that times out makes the condition inconclusive",
         assumptions=["S1 AMINO_ACIDS set -> str of the same 26 letters", "S2 ProFormaFormatError.__init__ skips message formatting",
